@@ -362,6 +362,7 @@ func famKill(e *env, root *core.Rand, n int) {
 	self, _ := os.Executable()
 	for i := 0; i < n; i++ {
 		r := root.Fork(uint64(7000 + i))
+		rBase, rBig := r.Fork(2), r.Fork(1) // before r is advanced: the child derives the same two
 		dir, _ := filepath.Abs(fmt.Sprintf("killdb-%d-%d", os.Getpid(), i))
 		os.RemoveAll(dir)
 		cmd := exec.Command(self, "-child-kill", dir, "-child-idx", fmt.Sprint(i))
@@ -406,8 +407,8 @@ func famKill(e *env, root *core.Rand, n int) {
 			os.Exit(2)
 		}
 		rec := storelib.NewRec(ctx, b, set)
-		base := maker(r.Fork(2), 0, 0.1)
-		big := maker(r.Fork(1), 2, 0.1)
+		base := maker(rBase, 0, 0.1)
+		big := maker(rBig, 2, 0.1)
 		rec.IDs = []uuid.UUID{base().ID, big().ID}
 		// the model replays the child's history: base created, then the killed create of big
 		rec.NoObs = true
